@@ -92,7 +92,12 @@ Theorem C04_segment_of_auto_members :
       p_filesz g' = pos' - seg_start /\ p_filesz g' <= p_memsz g' /\
       mchain g seg_start secs' idxs seg_start pos' /\
       (forall j, ~ In j idxs -> nth_optN secs' j = nth_optN secs j) /\ lenN secs' = lenN secs.
-Proof. exact layout_one_segment_auto. Qed.
+Proof.
+  intros h g secs gen pos bound ms idxs align H1 H2 H3 H4 H5 H6 H7 H8 H9 H10 H11 H12 H13.
+  destruct (layout_one_segment_auto h g secs gen pos bound ms H1 H2 H3 H4 H5 H6 H7 H8 H9 H10 H11 H12 H13)
+    as (g' & secs' & gen' & pos' & ss & A1 & A2 & A3 & A4 & A5 & A6 & A7 & A8 & A9 & A10 & A11 & _).
+  exists g', secs', gen', pos', ss. repeat split; assumption.
+Qed.
 Print Assumptions C04_segment_of_auto_members.
 
 Theorem C04_member_of_chain :
